@@ -71,5 +71,13 @@ open_("C16", ["C16|recovered-state|L*|KV/*|*", "C16|recovered-state|RPeek:*|KV/*
       "a crash during (or a clean reopen after) Merge shows the list/emptied-set defects of Merge recorded under C15: pushes rewritten without the LSet/pop records, duplicates when both the old and the rewritten segment survive")
 fixed("C15", "8f7687e", "Merge removed the active file when none of its entries had to be rewritten (e.g. it only held a tombstone): later commits went to an unlinked file and were lost", "C15|obs-mismatch|Get:nil|K/F|merge")
 fixed("C02", "084af14", "sparse mode: RangeScan/GetAll skipped a sealed segment whose key range strictly contains the scanned range", "C02|obs-mismatch|RangeScan:missing|S/F|rot")
+fixed("C10", "c945f09", "a torn record left at the tail of a segment survived recovery; when the next commit rotated the file, every later Open failed with a crc error (found by the post-recovery probe writes)", "C10|post-recovery-open-error|crc-error@torn(.dat)|K*/*|*")
+fixed("C20", "4a2cfe8", "Open panicked (nil entry) on a directory holding sorted-set records in HintKeyAndRAMIdxMode", "C20|panic|panic:ZAdd;Close;Open[K]|*|")
+fixed("C15", "57f154e", "Merge dropped set/list/sorted-set entries whose bucket and key also exist as a newer key/value pair (lookup in the key/value index regardless of the data structure)", "C04|interference|SMembers|KV/F|merge,rot")
+open_("C10", ["C10|post-recovery-*|*|S/*|*"],
+      SP + "a database recovered from a crash image cannot always be written to: Put panics (nil active tree after an interrupted rotation) or the recovered bucket metadata / index files miss committed keys")
+open_("C16", ["C16|recovered-state|Z*|KV/*|*", "C16|post-recovery-state|Z*|KV/*|*"],
+      "Merge is not crash safe for sorted-set members that were re-scored: the older ZAdd record is rewritten into a NEW (higher-numbered) file as long as the member exists, so after a crash between the rewrite of the old file and the rewrite of the file holding the newer score, replay order makes the old score win")
+fixed("C20", "dacbf07", "sparse mode: Commit panicked (nil tree root) when it rotated a segment that holds no committed key/value entry (only list/set/zset records, or records of a crashed transaction)", "C20|panic|panic:ZAdd;Close;Open[S]:commit|*|")
 json.dump({"findings": F}, open(os.path.join(root, "known_findings.json"), "w"), indent=1)
 print(len(F), "entries")
